@@ -9,6 +9,7 @@
 //! trusted: R15 (deep slices): the TLV type literal under which each of the three sender-side payload writers puts the keysend preimage and from which each of the two receiver-side readers takes it (five literals extracted from the TLV macro invocations of ln/msgs.rs); the TLV macros themselves are not verified
 //! trusted: R15 (deep slice): create_payment_onion_internal: the construction of the stripped RecipientOnionFields for a trampoline entry point and the condition of the refusal "Cannot pass payment_metadata to a blinded recipient" (first test under `if let Some(blinded_tail) = &path.blinded_tail`), verbatim as a function of the caller's fields; struct RecipientOnionFields is extracted (PaymentSecret is a 32-byte skeleton); building the trampoline and outer onions after the gate is dropped and not claimed here
 //! trusted: R15 (deep slice): create_payment_onion_internal from the build_onion_payloads call to the end, verbatim; build_onion_payloads / construct_onion_keys / construct_onion_packet are external_body over uninterpreted payloads, keys and packet (build_onion_payloads' amounts are proved above for build_onion_payloads_callback; the packet construction itself is not verified); R8: `.map_err(|_| APIError::InvalidRoute { err: <string> })` loses its message; the call of build_trampoline_onion_payloads (arguments verbatim; the deferred `let a; let b; (a, b) = f()?` is written `let (a, b) = f()?`) over an uninterpreted payload builder
+//! trusted: R15 (deep slice): build_onion_payloads: the body of the closure that turns the path's blinded tail into the TailDetails handed to build_onion_payloads_callback, verbatim as a function of the tail (skeleton {hops, blinding_point, excess_final_cltv_expiry_delta, final_value_msat}) and the optional trampoline packet; how build_onion_payloads_callback uses a Blinded tail is kept in the verified text but not claimed (see the assume line)
 //! assume: every hop's fee_msat <= 21e17 (the total supply in msat): without it `cur_value_msat += hop.fee_msat()` can overflow u64 before the limit test (observation O5 in DESIGN)
 //! assume: the contract is for a path without blinded or trampoline tail (blinded_tail is None) whose final hop carries a non-zero amount; the other arms are kept in the verified text but unreachable under this precondition and not claimed
 //! trusted: assume_specification for core::cmp::max / core::cmp::min (std definitions): present in every unit so that a change that introduces them is verified instead of being rejected by the tool
@@ -80,6 +81,30 @@ impl RouteHop {
 
 //@extract lightning/src/ln/onion_utils.rs :: enum TailDetails
 //@strip msgs
+//@end
+
+// ---- build_onion_payloads: what the payload builder is told about the path's blinded tail ----
+pub struct BlindedTailOfPath { pub hops: Vec<BlindedHop>, pub blinding_point: PublicKey, pub excess_final_cltv_expiry_delta: u32, pub final_value_msat: u64 }
+//@extract lightning/src/ln/onion_utils.rs :: fn build_onion_payloads
+//@strip msgs
+//@slice R15
+    let blinded_tail_with_hop_iter = path.blinded_tail.as_ref().map(|bt| { $body:any });
+//@with
+    fn tail_details_of_the_paths_blinded_tail<'a>(bt: &'a BlindedTailOfPath, trampoline_packet: Option<TrampolineOnionPacket>) -> TailDetails<'a> { $body }
+//@ret r
+//@ensures P C14 the-payloads-of-a-blinded-tail-are-built-from-the-tails-own-hops-blinding-point-final-amount-and-excess-expiry
+    trampoline_packet matches Some(p) ==> r == (TailDetails::SendToTrampoline { trampoline_packet: p, final_value_msat: bt.final_value_msat }),
+    trampoline_packet is None ==> (r matches TailDetails::Blinded { hops, blinding_point, final_value_msat, excess_final_cltv_expiry_delta }
+        && hops@ == bt.hops@ && blinding_point == bt.blinding_point && final_value_msat == bt.final_value_msat
+        && excess_final_cltv_expiry_delta == bt.excess_final_cltv_expiry_delta),
+//@mutant excess_final_expiry_of_the_blinded_tail_dropped
+    excess_final_cltv_expiry_delta: bt.excess_final_cltv_expiry_delta,
+//@with
+    excess_final_cltv_expiry_delta: 0,
+//@mutant final_amount_of_the_blinded_tail_dropped
+    final_value_msat: bt.final_value_msat, excess_final_cltv_expiry_delta
+//@with
+    final_value_msat: 0, excess_final_cltv_expiry_delta
 //@end
 
 // what the hops after position `from` (inclusive) are paid / add to the expiry, as the sender sums them
